@@ -1,7 +1,7 @@
 (* C19 lemmas: text cleaning on ASCII text -- the PythonDict model refines the spec, idempotence. *)
 From Coq Require Import List Bool Arith Ascii String Lia.
 Import ListNotations.
-Require Import MV.Spec.Builtins MV.Model.TextCleanPyDict MV.Model.BuiltinsFw.
+Require Import MV.Spec.Builtins MV.Model.TextCleanPyDict MV.Model.BuiltinsFw MV.Proofs.RemoveUrlsP.
 
 (* ---- character level: finite case analysis over all 256 characters ---- *)
 Ltac all_ascii a := destruct a as [[] [] [] [] [] [] [] []]; vm_compute; reflexivity.
@@ -189,6 +189,7 @@ Qed.
 Lemma py_apply_refines : forall o s, py_apply o s = clean_spec o s.
 Proof.
   intros [] s; cbn [py_apply clean_spec]. reflexivity. apply punct_refines. apply special_refines. apply whitespace_refines.
+  apply py_remove_urls_refines.
 Qed.
 
 Lemma pydict_clean_refines_l : forall ops x, py_clean ops x = clean_cell ops x.
@@ -257,6 +258,7 @@ Proof.
   - apply filter_idem.
   - apply filter_idem.
   - apply norm_ws_idem.
+  - rewrite <- !py_remove_urls_refines. apply two_pass_idem. apply lits_ok_py.
 Qed.
 
 (* ---- pandas' RE2 white-space class: the same result unless the text holds \v or \x1c-\x1f ---- *)
@@ -308,13 +310,18 @@ Proof.
   - rewrite punct_refines in Ha. unfold remove_punct in Ha. apply filter_In in Ha. apply H. tauto.
   - rewrite special_refines in Ha. unfold remove_special in Ha. apply filter_In in Ha. apply H. tauto.
   - unfold py_normalize_whitespace in Ha. apply in_strip in Ha. apply in_collapse in Ha. destruct Ha as [->|Ha]; auto.
+  - unfold py_remove_urls, two_pass, email_pass, url_pass in Ha. apply in_sub_del in Ha. apply in_sub_del in Ha. auto.
 Qed.
+
+Lemma pd_remove_urls_same : forall s, no_odd s -> pd_remove_urls s = py_remove_urls s.
+Proof. intros s H. apply two_pass_ext. intros a Ha. apply re2_char. apply H. exact Ha. Qed.
 
 Lemma pd_apply_same : forall o s, no_odd s -> pd_apply o s = py_apply o s.
 Proof.
   intros [] s H; cbn [pd_apply py_apply]; auto.
   - apply pd_special_same; auto.
   - unfold pd_normalize_whitespace, py_normalize_whitespace. rewrite collapse_re2_same; auto.
+  - apply pd_remove_urls_same; auto.
 Qed.
 
 Lemma pd_clean_same_l : forall ops s, no_odd s -> pd_clean ops s = py_clean ops (Some s).
